@@ -736,6 +736,23 @@ func extractQueryText(content string, pos protocol.Position, ctxType CompletionC
 		}
 		return strings.TrimLeft(after, " ")
 
+	case ContextTagName, ContextTagValue:
+		// What has been typed of the tag name (after ';' or the last ',') or of the
+		// tag value (after the tag's ':').
+		_, comment, found := strings.Cut(beforeCursor, ";")
+		if !found {
+			return ""
+		}
+		if idx := strings.LastIndex(comment, ","); idx != -1 {
+			comment = comment[idx+1:]
+		}
+		if ctxType == ContextTagValue {
+			if idx := strings.Index(comment, ":"); idx != -1 {
+				comment = comment[idx+1:]
+			}
+		}
+		return strings.TrimLeft(comment, " \t")
+
 	case ContextCommodity:
 		if after, found := strings.CutPrefix(beforeCursor, directiveCommodity); found {
 			return after
